@@ -465,19 +465,29 @@ impl VersionManager {
 
         let start_time = Instant::now();
 
-        // For OneWriteMultiRead, ensure no other writers are active
-        if self.concurrency_level == ConcurrencyLevel::OneWriteMultiRead {
-            let current_writers = self.active_writers.load(Ordering::Acquire);
-            if current_writers > 0 {
+        // For OneWriteMultiRead, reserve the single writer slot in one atomic step:
+        // a separate load followed by a later increment lets two threads both pass.
+        let writer_reserved = if self.concurrency_level == ConcurrencyLevel::OneWriteMultiRead {
+            if self
+                .active_writers
+                .compare_exchange(0, 1, Ordering::AcqRel, Ordering::Acquire)
+                .is_err()
+            {
                 return Err(ZiporaError::resource_busy(
                     "Another writer is already active in OneWriteMultiRead mode",
                 ));
             }
-        }
+            true
+        } else {
+            false
+        };
 
         // Acquire version under lock for synchronized levels
         let (version, min_version) = if self.concurrency_level.requires_synchronization() {
             let _lock = self.token_chain_mutex.lock().map_err(|_| {
+                if writer_reserved {
+                    self.active_writers.fetch_sub(1, Ordering::AcqRel);
+                }
                 ZiporaError::system_error("Failed to acquire token chain mutex for writer")
             })?;
 
@@ -489,8 +499,10 @@ impl VersionManager {
             (1, 1)
         };
 
-        // Increment active writer count
-        self.active_writers.fetch_add(1, Ordering::Relaxed);
+        // Increment active writer count (already counted when the slot was reserved)
+        if !writer_reserved {
+            self.active_writers.fetch_add(1, Ordering::Relaxed);
+        }
 
         // Update statistics
         if let Ok(mut stats) = self.stats.lock() {
